@@ -571,6 +571,12 @@ pub enum Error {
     #[snafu(display("Delegated roles are not consistent for {}", name))]
     DelegatedRolesNotConsistent { name: String },
 
+    #[snafu(display(
+        "Delegated role '{}' is delegated to by itself, directly or through other roles",
+        name
+    ))]
+    DelegationCycle { name: String },
+
     /// Target doesn't have proper permissions from parent delegations
     #[snafu(display("Invalid file permissions"))]
     InvalidPath { source: crate::schema::Error },
